@@ -981,6 +981,8 @@ type membershipAllower struct {
 	roomVersionImpl IRoomVersion
 	// The m.room.third_party_invite content referenced by this event.
 	thirdPartyInvite ThirdPartyInviteContent
+	// The sender of that m.room.third_party_invite event.
+	thirdPartyInviteSender string
 	// The user ID of the user whose membership is changing.
 	targetID string
 	// The user ID of the user who sent the membership event.
@@ -1029,6 +1031,12 @@ func (a *allowerContext) newMembershipAllower(authEvents AuthEventProvider, even
 		if m.thirdPartyInvite, err = NewThirdPartyInviteContentFromAuthEvents(authEvents, token); err != nil {
 			return
 		}
+		// NewThirdPartyInviteContentFromAuthEvents has checked that the event exists.
+		var thirdPartyInviteEvent PDU
+		if thirdPartyInviteEvent, err = authEvents.ThirdPartyInvite(token); err != nil {
+			return
+		}
+		m.thirdPartyInviteSender = string(thirdPartyInviteEvent.SenderID())
 	}
 	return
 }
@@ -1164,6 +1172,17 @@ func (m *membershipAllower) membershipAllowedSelfForRestrictedJoin() error {
 // membershipAllowedFronThirdPartyInvite determines if the member events is following
 // up the third_party_invite event it claims.
 func (m *membershipAllower) membershipAllowedFromThirdPartyInvite() error {
+	// A banned user cannot be invited, through a third party or otherwise.
+	if m.oldMember.Membership == spec.Ban {
+		return m.membershipFailed("target is banned")
+	}
+	// Only the user who issued the third-party invite may turn it into a room invite.
+	if m.senderID != m.thirdPartyInviteSender {
+		return errorf(
+			"The invite sender %s doesn't match the sender of the third-party invite %s",
+			m.senderID, m.thirdPartyInviteSender,
+		)
+	}
 	// Check if the event's target matches with the Matrix ID provided by the
 	// identity server.
 	if m.targetID != m.newMember.ThirdPartyInvite.Signed.MXID {
